@@ -410,7 +410,102 @@ Proof.
   rewrite (exec_return_ok _ _ _ Ev eq_refl). reflexivity.
 Qed.
 End Disorder.
+
+(* ---------- amino_acid_fraction ---------- *)
+Section Fractions.
+Definition order20 : list aa := [Ala; Cys; Asp; Glu; Phe; Gly; His; Ile; Lys; Leu; Met; Asn; Pro; Gln; Arg; Ser; Thr; Val; Trp; Tyr].
+Definition dmap (f : aa -> value) : list (value * value) := map (fun a => (VStr [aa_char a], f a)) order20.
+Definition aadict0 : value := Eval vm_compute in match g_amino_acid_fraction with SSeq (SAssign _ (EConst d)) _ => d | _ => VNone end.
+Lemma aadict0_eq : aadict0 = VDict (dmap (fun _ => VInt 0)). Proof. reflexivity. Qed.
+Lemma dmap_ext f g : (forall b, f b = g b) -> dmap f = dmap g.
+Proof. intros H. unfold dmap. apply map_ext. intros b. now rewrite H. Qed.
+Lemma dmap_ext_in f g : (forall b, In b order20 -> f b = g b) -> dmap f = dmap g.
+Proof. intros H. unfold dmap. apply map_ext_in. intros b Hb. now rewrite (H b Hb). Qed.
+Lemma dget a f : dict_get (VStr [aa_char a]) (dmap f) = Some (f a). Proof. destruct a; reflexivity. Qed.
+Lemma dset a f v : dict_set (VStr [aa_char a]) v (dmap f) = dmap (fun b => if aa_eqb b a then v else f b). Proof. destruct a; reflexivity. Qed.
+Definition af_prim (name : string) (args : list value) : value := if String.eqb name "qdiv" then qdiv_prim args else VErr.
+Definition af_body1 : stmt := SSetItem "AADICT" (EVar "i") (EAdd (EIndex (EVar "AADICT") (EVar "i")) (EConst (VInt 1))).
+Definition af_body2 : stmt := SSetItem "AADICT" (EVar "i") (ECall "qdiv" [EIndex (EVar "AADICT") (EVar "i"); ELen (EVar "self.seq")]).
+
+Lemma af_loop1 : forall (t : list aa) (c : aa -> Z) r, lookup "AADICT" r = VDict (dmap (fun b => VInt (c b))) ->
+  exists r', MiniPy.run_loop af_prim 0 "i" af_body1 (map (fun ch => VStr [ch]) (map aa_char t)) r = ONorm r' /\
+    lookup "AADICT" r' = VDict (dmap (fun b => VInt (c b + cnt (aa_eqb b) t))) /\ lookup "self.seq" r' = lookup "self.seq" r.
+Proof.
+  induction t as [|a t IH]; intros c r Hd.
+  - exists r. cbn [map MiniPy.run_loop cnt]. split; [reflexivity|]. split; [|reflexivity]. rewrite Hd. f_equal. apply dmap_ext. intros b. now rewrite Z.add_0_r.
+  - cbn [map MiniPy.run_loop]. set (r0 := set "i" (VStr [aa_char a]) r).
+    assert (Ei : MiniPy.eval af_prim (EIndex (EVar "AADICT") (EVar "i")) r0 = VInt (c a)).
+    { apply (eval_index_dict _ _ _ (dmap (fun b => VInt (c b))) (VStr [aa_char a])); [rewrite eval_var; unfold r0; lk; exact Hd | rewrite eval_var; unfold r0; lk; reflexivity | reflexivity | apply dget]. }
+    unfold af_body1 at 1.
+    rewrite (exec_setitem_dict "AADICT" _ _ r0 (dmap (fun b => VInt (c b))) (VStr [aa_char a]) (VInt (c a + 1)));
+      [| unfold r0; lk; exact Hd | rewrite eval_var; unfold r0; lk; reflexivity | apply eval_add_int; [exact Ei | reflexivity] | reflexivity | reflexivity].
+    rewrite dset.
+    destruct (IH (fun b => if aa_eqb b a then c a + 1 else c b) (set "AADICT" (VDict (dmap (fun b => if aa_eqb b a then VInt (c a + 1) else VInt (c b)))) r0)) as [r1 [E1 [H1 H2]]].
+    { lk. f_equal. apply dmap_ext. intros b. destruct (aa_eqb b a); reflexivity. }
+    exists r1. split; [exact E1|]. split.
+    + rewrite H1. f_equal. apply dmap_ext. intros b. cbn [cnt]. f_equal.
+      destruct (aa_eqb b a) eqn:Eb; [|lia]. assert (b = a) by (destruct a, b; try discriminate Eb; reflexivity). subst b. lia.
+    + rewrite H2. unfold r0. lk. reflexivity.
+Qed.
+
+Definition frq (c : aa -> Z) (b : aa) : value := VQ (Qred (inject_Z (c b) / inject_Z (Z.of_nat N))).
+
+Lemma af_loop2 (c : aa -> Z) : (1 <= N)%nat -> forall (t pre : list aa) r, order20 = pre ++ t -> NoDup order20 ->
+  lookup "AADICT" r = VDict (dmap (fun b => if existsb (aa_eqb b) pre then frq c b else VInt (c b))) -> lookup "self.seq" r = VStr cs ->
+  exists r', MiniPy.run_loop af_prim 0 "i" af_body2 (map (fun a => VStr [aa_char a]) t) r = ONorm r' /\
+    lookup "AADICT" r' = VDict (dmap (fun b => if existsb (aa_eqb b) (pre ++ t) then frq c b else VInt (c b))).
+Proof.
+  intros HN. induction t as [|a t IH]; intros pre r Ho Hnd Hd Hs.
+  - exists r. cbn [map MiniPy.run_loop]. now rewrite app_nil_r.
+  - cbn [map MiniPy.run_loop]. set (r0 := set "i" (VStr [aa_char a]) r).
+    assert (Hna : existsb (aa_eqb a) pre = false).
+    { apply not_true_is_false. intros C. apply existsb_exists in C. destruct C as [x [Hx Ex]].
+      assert (x = a) by (destruct a, x; try discriminate Ex; reflexivity). subst x.
+      rewrite Ho in Hnd. apply NoDup_remove_2 in Hnd. apply Hnd. apply in_or_app. now left. }
+    set (f0 := fun b => if existsb (aa_eqb b) pre then frq c b else VInt (c b)).
+    assert (Ei : MiniPy.eval af_prim (EIndex (EVar "AADICT") (EVar "i")) r0 = VInt (c a)).
+    { apply (eval_index_dict _ _ _ (dmap f0) (VStr [aa_char a])); [rewrite eval_var; unfold r0; lk; exact Hd | rewrite eval_var; unfold r0; lk; reflexivity | reflexivity |].
+      rewrite dget. unfold f0. now rewrite Hna. }
+    assert (Ev : MiniPy.eval af_prim (ECall "qdiv" [EIndex (EVar "AADICT") (EVar "i"); ELen (EVar "self.seq")]) r0 = frq c a).
+    { rewrite (eval_call2 _ _ _ _ (VInt (c a)) (VN N) Ei); [| cbn [MiniPy.eval]; unfold r0; lk; rewrite Hs; now rewrite map_length | reflexivity | reflexivity].
+      unfold af_prim. cbn [String.eqb Ascii.eqb Bool.eqb qdiv_prim as_Q]. unfold frq.
+      replace (Qeq_bool (inject_Z (Z.of_nat N)) 0) with false; [reflexivity|]. symmetry. apply not_true_is_false. intros C. apply Qeq_bool_iff in C.
+      unfold Qeq, inject_Z in C. cbn in C. lia. }
+    unfold af_body2 at 1.
+    rewrite (exec_setitem_dict "AADICT" _ _ r0 (dmap f0) (VStr [aa_char a]) (frq c a));
+      [| unfold r0; lk; exact Hd | rewrite eval_var; unfold r0; lk; reflexivity | exact Ev | reflexivity | reflexivity].
+    rewrite dset.
+    destruct (IH (pre ++ [a]) (set "AADICT" (VDict (dmap (fun b => if aa_eqb b a then frq c a else f0 b))) r0)) as [r1 [E1 H1]].
+    { rewrite <- app_assoc. exact Ho. } { exact Hnd. }
+    { lk. f_equal. apply dmap_ext. intros b. rewrite existsb_app. cbn [existsb]. rewrite orb_false_r. unfold f0.
+      destruct (aa_eqb b a) eqn:Eb.
+      - assert (b = a) by (destruct a, b; try discriminate Eb; reflexivity). subst b. now rewrite orb_true_r.
+      - now rewrite orb_false_r. }
+    { lk. unfold r0. lk. exact Hs. }
+    exists r1. split; [exact E1|]. rewrite H1, <- app_assoc. reflexivity.
+Qed.
+
+(* the twenty fractions on EVERY non-empty sequence: for each letter, its number of occurrences over the length *)
+Theorem amino_acid_fraction_tie r : (1 <= N)%nat -> lookup "self.seq" r = VStr cs ->
+  MiniPy.exec af_prim 0 g_amino_acid_fraction r = ORet (VDict (dmap (frq (fun b => cnt (aa_eqb b) s)))).
+Proof.
+  intros HN Hs. unfold g_amino_acid_fraction. fold aadict0.
+  rewrite exec_seq, (exec_assign_ok _ _ _ aadict0) by reflexivity.
+  set (r0 := set "AADICT" aadict0 r).
+  rewrite exec_seq, exec_for, eval_var. replace (lookup "self.seq" r0) with (VStr cs) by (unfold r0; lk; now rewrite Hs). cbn [elements].
+  destruct (af_loop1 s (fun _ => 0) r0) as [r1 [E1 [H1 Hs1]]]; [unfold r0; lk; apply aadict0_eq|].
+  fold af_body1. rewrite E1. cbn [Z.add] in H1.
+  rewrite exec_seq, exec_for, eval_var, H1. cbn [elements].
+  assert (Ek : map fst (dmap (fun b => VInt (cnt (aa_eqb b) s))) = map (fun a => VStr [aa_char a]) order20) by (unfold dmap; rewrite map_map; reflexivity).
+  rewrite Ek.
+  destruct (af_loop2 (fun b => cnt (aa_eqb b) s) HN order20 [] r1 eq_refl) as [r2 [E2 H2]].
+  { unfold order20. repeat constructor; cbn [In]; intuition discriminate. }
+  { exact H1. } { rewrite Hs1. unfold r0. lk. exact Hs. }
+  fold af_body2. rewrite E2. apply exec_return_ok; [|reflexivity]. rewrite eval_var, H2. cbn [app]. reflexivity.
+Qed.
+End Fractions.
 End Comp.
+Print Assumptions amino_acid_fraction_tie.
 Print Assumptions uverskyHydropathy_tie.
 Print Assumptions meanWWHydropathy_tie.
 Print Assumptions FPPII_chain_tie.
